@@ -573,6 +573,8 @@ def replay(mod, prop, path, verbose=False):
         print('HARNESS-ERROR not a %s replay file for %s' % (FORMAT, prop))
         return EXIT_HARNESS
     plan = rp['plan']
+    if hasattr(mod, 'prewarm'):
+        mod.prewarm()           # same zygote state as in the fan-out (a function of the code only)
     if verbose:
         plan = dict(plan)
         plan['_keep'] = True
